@@ -2,7 +2,9 @@
 Model of the SQLite store (parsing/sqlite.py, utilities/sqlite_utilities.py, utilities/sqlite_db_pragmas.py):
 every public write operation as the sequence of SQL statements it issues on a shared cursor, the constraints of
 the schema (NOT NULL, UNIQUE, FOREIGN KEY with `PRAGMA foreign_keys = ON`), the `with_connection` wrapper
-(commit only when the body returns; IntegrityError / InterfaceError → rollback + ParsingError; any other exception
+(commit only when the body returns; IntegrityError / InterfaceError → rollback + ParsingError; any other exception —
+another `sqlite3.Error` as well as an exception OUTSIDE the sqlite3 hierarchy: OverflowError / UnicodeEncodeError raised while a
+value is bound, an exception of the module itself between two statements, KeyboardInterrupt, MemoryError … —
 propagates and the connection is closed without commit), fault injection at statement `k`, and the two
 process-global lists `MATERIAL_LIST` / `ADSORBATE_LIST` that the code updates before the commit.
 
@@ -36,12 +38,17 @@ structure Mem where
 inductive SqlErr
   | integrity      -- sqlite3.IntegrityError (constraint, or raised by the module itself)
   | interface      -- sqlite3.InterfaceError / unsupported parameter type
-  | operational    -- sqlite3.OperationalError (injected)
+  | operational    -- sqlite3.OperationalError (injected), or any other sqlite3.Error that is neither of the two above
+  | foreign        -- an exception that is NOT a sqlite3.Error: raised by the driver while it binds a value (OverflowError for an
+                   -- int outside 64 bit, UnicodeEncodeError for a lone surrogate), by the module itself between two statements
+                   -- (ParsingError, whatever json.dumps raises), or asynchronously (KeyboardInterrupt, MemoryError, SystemExit)
   | exit           -- the process died (injected)
   deriving DecidableEq, Repr
 
+/-- what happens at the planted statement: the first four are raised INSTEAD of executing statement `k` (the statement has no
+effect); `foreign` stands for every exception class outside `sqlite3.Error`, `BaseException` subclasses included -/
 inductive FaultKind
-  | integrity | interface | operational | exitBefore | exitAfter
+  | integrity | interface | operational | foreign | exitBefore | exitAfter
   deriving DecidableEq, Repr
 
 /-- working state of one `with_connection` call: working copy, number of `cursor.execute` calls so far, fault plan -/
@@ -67,6 +74,7 @@ def stmt {β : Type} (body : Db → Except SqlErr (β × Db)) : Sql β := do
     | some (kf, .integrity) => if kf = k then some .integrity else none
     | some (kf, .interface) => if kf = k then some .interface else none
     | some (kf, .operational) => if kf = k then some .operational else none
+    | some (kf, .foreign) => if kf = k then some .foreign else none
     | some (kf, .exitBefore) => if kf = k then some .exit else none
     | _ => none
   match injected with
@@ -358,6 +366,7 @@ def runOp (db : Db) (mem : Mem) (op : Op) (fault : Option (Nat × FaultKind)) : 
   | .error .integrity => ⟨db, w.mem, .parsingError, w.n⟩
   | .error .interface => ⟨db, w.mem, .parsingError, w.n⟩
   | .error .operational => ⟨db, w.mem, .otherError, w.n⟩
+  | .error .foreign => ⟨db, w.mem, .otherError, w.n⟩      -- no `except` clause matches: `finally` closes the connection, nothing is committed
   | .error .exit => ⟨db, mem, .died, w.n⟩
 
 /-- number of `cursor.execute` calls of the fault-free run (fault positions are `0 … stmtCount`) -/
